@@ -53,6 +53,7 @@ pub fn dispatch(line: &str) -> String {
         "vcdhdr" => hdr::vcdhdr(&toks),
         "ghw" => ghwcmd::ghw(&toks),
         "wavedump" => ghwcmd::wavedump(&toks),
+        "pairhex" => ghwcmd::pairhex(&toks),
         "serdert" => serdecmd::serdert(&toks),
         "serdejson" => serdecmd::serdejson(&toks),
         "detect" => detect::detect(&toks),
